@@ -88,9 +88,13 @@ CLAIMED["C01"] = ("§3 C01",
     "Narrow: decides that every accumulating case of nodeContext.scheduleConjunct / insertValueConjunct excludes structure sharing (n.unshare() or delegation) on every path, that share() is reached only past the noSharing/isShared/no-arcs/no-errors guards and unshare is sticky, and that no map iteration in internal/core/adt, internal/core/compile, cue/build and cue/load feeds an unsorted order-sensitive sink. It does not decide commutativity, associativity or idempotence of the values computed (scheduler, disjunction cross product, closedness evidence).",
     "order independence of the computed values is value-level and not claimed")
 
+CLAIMED["C03"] = ("§0.6 / §4 C03",
+    "per-case path analysis of the bound/validator insertion cases (must record or simplify on every path), consult-at-the-end checks over validateValue/unify/getValidators, clone completeness",
+    "Narrow: decides one mechanism the property names — bounds and validators are never dropped between insertion and the final validation: every path through the BoundValue and Validator cases of insertValueConjunct records the constraint (or leaves through the documented implied/finalised edges), the final validation consults both bounds and every pending check, getValidators carries them into non-concrete results, and disjunct clones copy them. It does NOT decide the cell values of SimplifyBounds (off-by-one, Ceil/Floor, kinds), which is the value-level core of the property.",
+    "the bound-simplification decision table is value-level and not decided")
+
 # properties not claimed (yet) -> reason
 NOT_APPLICABLE = {
-    "C03": "value-level: the content is the cell values of the bound-simplification decision table over numbers; no shape rule separates a correct table from an off-by-one (DESIGN.md §4)",
     "C04": "value-level: default selection is mode arithmetic across a run-time cross product of disjuncts; not decidable from code shape (DESIGN.md §4)",
     "C05": "value-level: field admission depends on run-time closedness evidence sets; the available shape facts are not necessary conditions of the combinatorial cases (DESIGN.md §4)",
     "C13": "semantic equivalence of two schema languages on all instances; no structural necessary condition in reach (DESIGN.md §4)",
